@@ -1,4 +1,5 @@
 import SSVerif.Model.JsonParse
+set_option linter.unusedSimpArgs false
 /-! C14 helper lemmas: the recogniser inverts the compact printer (on values whose numbers are JSON numbers) -/
 namespace SSVerif.Json
 
